@@ -19,9 +19,9 @@ from tools.vlib import Outcome, sx
 from tools.props import c13_gen as G
 
 MANIFEST = {
-    "level_text": "Coq theorems (Properties/C13.v, 21, no axioms) about an executable skeleton of the pipeline in which every hash-based collection (AstCache, used_structs, the requested type set, every dependency set, resolved_types, dependencies) is a list in an explicit, universally quantified order omega which the code sorts by name before use, and in which a declaration carries its content as a function of the source item (field / variant / parameter / channel names in order, an id for the rest of a definition, the payload type of a listener): for all omega, omega' the declarations of every generated file and the content of the two visualisation files (entry points, types with depends-on lists, dependency chains, nodes, edges) are the same lists (C13_order_independent, C13_viz_independent, via isort_perm_invariant); the bindings are the same for all flags and the graph files appear exactly with --visualize-deps (C13_flags); added noise items change nothing (C13_noise) and noise-only files, any number at any position, change nothing at all - equality of every file and of both graph files, no premise (C13_noise_file, C13_noise_files, via monotonicity of ranks in the sorted path list and commutation of filter with the stable sort); any sequence of source transformations - reorder items of a file, move an item, split a file, merge files, relist, rename (inductive tstep/tsteps) - changes at most the order of declarations, never their content or the set, when no type name is defined twice and no event name is emitted with two payload types (C13_transformations, C13_move), and both exceptions are exhibited by computed witnesses (C13_move_dupdef_refuted, C13_move_dupevent_refuted); the run-time oracle rel on two versions of a file decides exactly same item list / same multiset / different multisets / unparsed (C13_oracle_exact). Tied to the code on every run: each generated project is run through the real binary in 8 (quick) / 32 (thorough) fresh processes with and without --verbose / --visualize-deps and under noise / reorder / move / split / merge transformations; files are compared byte for byte and through the extracted module parser; the model must reproduce, for every run, the declarations of every file in order with their member keys and listener payload types, and the lists of both graph files. Round 7: the sorted orders in closed form - the repaired file loop is the stable sort of the files by path, plain types.ts is the used types by name then the Params declarations in path order, commands.ts the wrappers in path order (C13_canonical_order); a text level (Model/C13Text.v) in which the ids of the skeleton are resolved by a content table to the items as written and the files are rendered by the text-level generator models Pipeline.v (tokens of plain types.ts / commands.ts), PipelineZod.v, Events.v, index.ts and the order-bearing lines of both graph files as text: the file text is independent of the hash orders (C13_text_order_independent, C13_viz_text_independent), unchanged by noise items and noise-only files (C13_text_noise, C13_text_noise_file), plain types.ts is its import line followed by one token block per declaration (C13_types_plain_blocks) and source transformations permute the blocks of types.ts / commands.ts without changing a block (C13_text_transformations); the oracle's canonical printer is injective (C13_oracle_printer_injective; the round-6 printer was not and was replaced), so same-items means equal s-expressions of the parsed items (C13_oracle_same_items). Text-level correspondence on every run: the depends-on, chain, node and edge lines of both graph files byte for byte, and the token blocks of every struct interface, Params interface and wrapper of plain types.ts / commands.ts inside the fragment of Pipeline.v against the lexed real files.",
+    "level_text": "Coq theorems (Properties/C13.v, 22, no axioms) about an executable skeleton of the pipeline in which every hash-based collection (AstCache, used_structs, the requested type set, every dependency set, resolved_types, dependencies) is a list in an explicit, universally quantified order omega which the code sorts by name before use, and in which a declaration carries its content as a function of the source item (field / variant / parameter / channel names in order, an id for the rest of a definition, the payload type of a listener): for all omega, omega' the declarations of every generated file and the content of the two visualisation files (entry points, types with depends-on lists, dependency chains, nodes, edges) are the same lists (C13_order_independent, C13_viz_independent, via isort_perm_invariant); the bindings are the same for all flags and the graph files appear exactly with --visualize-deps (C13_flags); added noise items change nothing (C13_noise) and noise-only files, any number at any position, change nothing at all - equality of every file and of both graph files, no premise (C13_noise_file, C13_noise_files, via monotonicity of ranks in the sorted path list and commutation of filter with the stable sort); any sequence of source transformations - reorder items of a file, move an item, split a file, merge files, relist, rename (inductive tstep/tsteps) - changes at most the order of declarations, never their content or the set, when no type name is defined twice and no event name is emitted with two payload types (C13_transformations, C13_move), and both exceptions are exhibited by computed witnesses (C13_move_dupdef_refuted, C13_move_dupevent_refuted); the run-time oracle rel on two versions of a file decides exactly same item list / same multiset / different multisets / unparsed (C13_oracle_exact). Tied to the code on every run: each generated project is run through the real binary in 8 (quick) / 32 (thorough) fresh processes with and without --verbose / --visualize-deps and under noise / reorder / move / split / merge transformations; files are compared byte for byte and through the extracted module parser; the model must reproduce, for every run, the declarations of every file in order with their member keys and listener payload types, and the lists of both graph files. Round 7: the sorted orders in closed form - the repaired file loop is the stable sort of the files by path, plain types.ts is the used types by name then the Params declarations in path order, commands.ts the wrappers in path order (C13_canonical_order); a text level (Model/C13Text.v) in which the ids of the skeleton are resolved by a content table to the items as written and the files are rendered by the text-level generator models Pipeline.v (tokens of plain types.ts / commands.ts), PipelineZod.v, Events.v, index.ts and the order-bearing lines of both graph files as text: the file text is independent of the hash orders (C13_text_order_independent, C13_viz_text_independent), unchanged by noise items and noise-only files (C13_text_noise, C13_text_noise_file), plain types.ts is its import line followed by one token block per declaration (C13_types_plain_blocks) and source transformations permute the blocks of types.ts / commands.ts without changing a block (C13_text_transformations); the oracle's canonical printer is injective (C13_oracle_printer_injective; the round-6 printer was not and was replaced), so same-items means equal s-expressions of the parsed items (C13_oracle_same_items); the two class predicates of the run-time matcher are reflected (C13_classes_exact: kf_dupdef p = false iff no type name is defined twice, kf_dupevent p = false iff equal event names carry equal payload ids). Text-level correspondence on every run: the depends-on, chain, node and edge lines of both graph files byte for byte, and the token blocks of every struct interface, Params interface and wrapper of plain types.ts / commands.ts inside the fragment of Pipeline.v against the lexed real files; in Zod mode the schema token blocks of every struct; events.ts line for line in plain mode.",
     "design_ref": "DESIGN.md section 5 C13",
-    "level_note": "Not proved / outside the model after round 7: (1) the text level resolves the ids of the skeleton (t_body, c_name, e_name, e_pay) by a content table k that is universally quantified in the theorems and supplied by the python side at run time (the struct / fn item behind each id); that the skeleton (names, roots, dependency lists) is the abstraction of those items is not proved in Coq - it is the Skeleton class of c13_gen.py, checked by the correspondence of every run. (2) The text-level generator models are the shared Pipeline.v / PipelineZod.v / Events.v: structs only (no enum text), default naming configuration, no type mappings, and Pipeline.v predates C04-2 (ipc::Channel<T> is not a channel there); blocks outside that fragment (enums, mapped names, that spelling) are counted in the evidence (text_level.blocks_outside_fragment) and compared at the level of declaration labels and member keys only. The run-time text correspondence covers plain mode (struct, Params and wrapper token blocks) and the graph-file lines; Zod-mode text and events.ts text are in the model and theorems but are compared with the real files at label level only. The header lines, the command entry-point block and the summary of dependency-graph.txt and the command nodes / param edges of the .dot file carry file paths, line numbers and type strings and are not in the text model (their order is: v_cmds). (3) C13_oracle_same_items reduces same-items to equality of the lists of Spec/TsObs.sx_item values; injectivity of sx_item itself (a nested encoder over ty / ex / tk) is stated as C13_sx_item_injective_full_statement and not proved. (4) Comments, whitespace and --verbose output: below the model's input, run only (byte identity over fresh processes). The order of names in the model is numeric; the python side numbers paths in PathBuf (component-wise) order and names in byte order so that it coincides with the code's sort.",
+    "level_note": "Not proved / outside the model after round 7: (1) the text level resolves the ids of the skeleton (t_body, c_name, e_name, e_pay) by a content table k that is universally quantified in the theorems and supplied by the python side at run time (the struct / fn item behind each id); that the skeleton (names, roots, dependency lists) is the abstraction of those items is not proved in Coq - it is the Skeleton class of c13_gen.py, checked by the correspondence of every run. (2) The text-level generator models are the shared Pipeline.v / PipelineZod.v / Events.v: structs only (no enum text), default naming configuration, no type mappings, and Pipeline.v predates C04-2 (ipc::Channel<T> is not a channel there); blocks outside that fragment (enums, mapped names, that spelling) are counted in the evidence (text_level.blocks_outside_fragment) and compared at the level of declaration labels and member keys only. The run-time text correspondence covers: plain mode struct / Params / wrapper token blocks, Zod mode the schema text of every struct (export const NSchema .. ; export type N .. as token blocks, structs without validator attributes), events.ts line for line in plain mode (blank lines ignored: Events.v predates C12-fix-dedup, whose template leaves additional blank lines; payload types without a mapping), and the graph-file lines byte for byte; Zod ParamsSchema / alias / wrapper text, Zod-mode events.ts and the import lines are in the model and theorems but are compared with the real files at label level only. The header lines, the command entry-point block and the summary of dependency-graph.txt and the command nodes / param edges of the .dot file carry file paths, line numbers and type strings and are not in the text model (their order is: v_cmds). (3) C13_oracle_same_items reduces same-items to equality of the lists of Spec/TsObs.sx_item values; injectivity of sx_item itself (a nested encoder over ty / ex / tk) is stated as C13_sx_item_injective_full_statement and not proved. (4) Comments, whitespace and --verbose output: below the model's input, run only (byte identity over fresh processes). The order of names in the model is numeric; the python side numbers paths in PathBuf (component-wise) order and names in byte order so that it coincides with the code's sort.",
     "technique": "Rocq/Coq proof over hand-written model + correspondence check (extracted OCaml vs the real CLI binary in fresh processes)"
 }
 
@@ -30,7 +30,8 @@ RULE = ("multi-file projects (1..6 files; shapes multi / cmd1 / onefile / dup / 
         "plus noise variants and reorder / move / split / merge (reverse, movedef for the duplicate classes) variants. "
         "One evaluation = one (project, mode, aspect) group of runs; non-trivial = the project has at least two files or at "
         "least two commands; distinct = distinct (project, mode, aspect, variant)")
-TRUSTED = ["Spec/TsModule.v parser and Spec/C13Spec.v rel/labels (extracted) are the run-time oracle on generated files",
+TRUSTED = ["tools/props/c13.py content_tables: the struct / fn item behind each body id / command id handed to the text-level model, and the fragment predicate (which blocks are compared as text); cutting files at the keyword export is Gallina (Model/C13Text.v cut_export)",
+           "Spec/TsModule.v parser and Spec/C13Spec.v rel/labels (extracted) are the run-time oracle on generated files",
            "python: parsing of dependency-graph.txt/.dot into the lists the model predicts; recovery of a listener's payload type by a regular expression",
            "tools/props/c13_gen.py Skeleton: the map from a project case to the model's input (custom type names per signature / field, the event parser's payload inference, numbering in sort order)"]
 ASSUMPTIONS = ["fresh processes sample the hash orders (std RandomState is seeded per process)",
